@@ -158,6 +158,9 @@ impl ExpectationMaker {
             });
         if captures.len() == 1 {
             Ok((line.to_string(), "equal".to_string(), "".to_string()))
+        } else if captures.len() == 2 && captures[1].is_empty() {
+            // `()` carries neither kind nor quantifier: it is part of the text
+            Ok((line.to_string(), "equal".to_string(), "".to_string()))
         } else if captures.len() == 2 {
             Ok((
                 captures[0].to_string(),
